@@ -182,6 +182,32 @@ Definition assign_member (r : setter_row) (inp : minput) : res :=
   | _, _ => Crash
   end.
 
+(* orientation = ... / orientation given to the constructor: check_format_input_orientation(inp, init_format=True) *)
+Definition assign_orient (r : setter_row) (inp : oinput) : oout :=
+  match s_val r with VOrientation => check_format_input_orientation inp | _ => OCrashed end.
+Definition odoc_accepts (inp : oinput) : bool := match inp with ONotRotation => false | _ => true end.
+
+(* field_func = ... on an object of class cls: validate_field_func behind `_editable_field_func` (otherwise the
+   setter raises AttributeError: the attribute is not settable on the original magpylib sources) *)
+Definition assign_func (cls : string) (r : setter_row) (inp : finput) : res :=
+  match s_val r with
+  | VFieldFunc => if str_mem cls editable_field_func then validate_field_func inp else Crash
+  | _ => Crash end.
+(* documented: None, or a callable(field, observers) that returns for B and for H an ndarray of the shape of the
+   observers -- probed with shape (2,3) -- (or None for a field it does not provide) *)
+Definition fdoc_accepts (inp : finput) : bool :=
+  match inp with
+  | FNone => true
+  | FNotCallable => false
+  | FCallable args_ok outs =>
+      args_ok && forallb (fun o => match o with FoNone => true | FoArray s => shape_eqb s field_func_probe_shape
+                                   | _ => false end) outs
+  end.
+Definition wf_finput (inp : finput) : Prop :=
+  match inp with
+  | FCallable _ outs => List.length outs = List.length field_func_fields /\ ~ In FoRaises outs
+  | _ => True end.
+
 (* ------------------------------------------------------------------ documented verdicts *)
 Definition all_pos (vals : list Q) : bool := forallb (fun x => Qltb (qz 0) x) vals.
 
@@ -260,12 +286,12 @@ Definition rank_pairs : list (string * string * Z * Z) :=
 Inductive xcase :=
 | XVec (c a : string) (inp : vinput) (expect : vout)
 | XSca (c a : string) (inp : sinput) (expect : sout)
-| XMem (c a : string) (inp : minput) (expect : res).
+| XMem (c a : string) (inp : minput) (expect : res)
+| XOri (c a : string) (inp : oinput) (expect : oout)
+| XFun (cls c a : string) (inp : finput) (expect : res).
 
 Definition Qeqb_list (a b : list Q) : bool :=
   (Nat.eqb (List.length a) (List.length b)) && forallb (fun p => Qeq_bool (fst p) (snd p)) (combine a b).
-Definition shape_eqb (a b : shape) : bool :=
-  (Nat.eqb (List.length a) (List.length b)) && forallb (fun p => fst p =? snd p) (combine a b).
 
 Definition vout_eqb (a b : vout) : bool :=
   match a, b with
@@ -289,6 +315,13 @@ Definition run_case (x : xcase) : bool :=
   | XVec c a inp e => match find_setter c a with Some r => vout_eqb (assign_vec r inp) e | None => false end
   | XSca c a inp e => match find_setter c a with Some r => sout_eqb (assign_scalar r inp) e | None => false end
   | XMem c a inp e => match find_setter c a with Some r => res_eqb (assign_member r inp) e | None => false end
+  | XOri c a inp e => match find_setter c a with
+                      | Some r => match assign_orient r inp, e with
+                                  | OStored n, OStored m => n =? m
+                                  | ORejected, ORejected | OCrashed, OCrashed => true
+                                  | _, _ => false end
+                      | None => false end
+  | XFun cls c a inp e => match find_setter c a with Some r => res_eqb (assign_func cls r inp) e | None => false end
   end.
 
 Fixpoint failing_from (i : Z) (l : list xcase) : list Z :=
